@@ -162,6 +162,11 @@ func cmdParamTable() int {
 		fmt.Println(err)
 		return 2
 	}
-	fmt.Println("written paramtable_gen.go, pinned_gen.go, pinned_locals.json")
+	lt, _ := json.Marshal(prog.DumpPinnedLits())
+	if err := os.WriteFile("/verif/checker/internal/eng/pinned_lits.json", lt, 0o644); err != nil {
+		fmt.Println(err)
+		return 2
+	}
+	fmt.Println("written paramtable_gen.go, pinned_gen.go, pinned_locals.json, pinned_lits.json")
 	return 0
 }
